@@ -352,6 +352,10 @@ def run_extract(ctx):
     extractor no longer recognises the sources (a broken tie)"""
     rc, out = sh([sys.executable, os.path.join(VERIF, 'tools', 'extract.py')])
     ctx.coverage['extraction'] = out.strip()[-3000:]
+    try:
+        ctx.extract_info = json.loads(out.strip().split('\n')[-1])['info']
+    except Exception:
+        ctx.extract_info = {}
     if rc != 0:
         ctx.extract_failure = out.strip()[-2000:]
         return False
